@@ -49,6 +49,11 @@ FitsNowT(o, t, h) == IF IsSup(t) THEN SupUsable(SupP(t)) /\ CanTake(o, SupP(t))
                      ELSE Fits(o, Sh(t), HistOf(h, t), FALSE, FALSE)
 FitsIdleT(t, h)   == IF IsSup(t) THEN SupUsable(SupP(t)) /\ CanTake(InitOcc, SupP(t))
                      ELSE FitsIdle(Sh(t), HistOf(h, t))
+\* non-scattered mode: what the one-pass search from the logged node offset finds (NSQ: the trace asks for
+\* the non-scattered quiescence obligations - set by the rig for the Continuous class only)
+NSQ == IF "nsq" \in DOMAIN T THEN T.nsq ELSE FALSE
+OffOf(e) == IF "off" \in DOMAIN e THEN e.off % NNodes ELSE 0
+FitsNowC(o, t, h, off) == IF IsSup(t) THEN FitsNowT(o, t, h) ELSE FitsCont(o, Sh(t), HistOf(h, t), off)
 Tags == {Sh(t).colo : t \in Uids} \ {"none"}
 
 Init ==
@@ -240,6 +245,16 @@ Step ==
                           \cup (IF Holding(H) = {} /\ nonenv # {} /\ nonenv = lp
                                 THEN E(\E t \in lp : ~FitsIdleT(t, hist), "C04.IdleStartsNone")
                                      \cup (IF Cardinality(lp) = 1 THEN {"C04.UnfitAloneNotFailed"} ELSE {})
+                                ELSE {})
+                          ELSE {})
+                    \* non-scattered mode: a task waiting alone for which the search from the current
+                    \* offset finds a stretch must have been started; an idle pilot starts some task
+                    \cup (IF NSQ /\ e.quiet THEN
+                            LET nonenv == {t \in lp : ~Sh(t).named_env} IN
+                               (IF Cardinality(lp) = 1 /\ nonenv = lp
+                                THEN UNION {E(~FitsNowC(lo, t, hist, OffOf(e)), "C04.AloneNotStarted") : t \in lp} ELSE {})
+                          \cup (IF Holding(H) = {} /\ nonenv # {} /\ nonenv = lp
+                                THEN E(\E t \in lp : ~FitsNowC(InitOcc, t, hist, OffOf(e)), "C04.IdleStartsNone")
                                 ELSE {})
                           ELSE {})
                /\ UNCHANGED <<H, rep, rel, hist, named, namedc, compl>>
